@@ -464,7 +464,14 @@ struct Emitter {
       noteType(P->getType());
       R += (i ? "," : "");
       R += "{\"name\":" + jstr(P->getNameAsString()) + ",\"did\":" +
-           std::to_string(declId(P)) + "," + typeFacts(P->getType()) + "}";
+           std::to_string(declId(P)) + "," + typeFacts(P->getType());
+      // `const uint8_t buffer[42]`: the declared element count is the contract
+      {
+        QualType OT = P->getOriginalType();
+        if (const auto *CAT = Ctx.getAsConstantArrayType(OT))
+          R += ",\"parr\":" + std::to_string(CAT->getSize().getZExtValue());
+      }
+      R += "}";
     }
     R += "]";
     if (FD->isVariadic()) R += ",\"variadic\":1";
